@@ -282,6 +282,14 @@ def run(ctx):
             continue
         onode = cfg.node_of(o)
         after = [m for (m, lab) in onode.succ if lab != "exc"]
+        # `v = open(..)` .. `with v [as fp]:` hands the file to a context manager later on: entering the with statement is
+        # as good as the close (the file object closes itself when the block is left, normally or not)
+        held = managed.targets[0].id if isinstance(managed, ast.Assign) and len(managed.targets) == 1 and isinstance(managed.targets[0], ast.Name) and managed.value is o else None
+        if held is not None:
+            entered = [n for n in cfg.nodes if n.kind == "with" and isinstance(n.ast, ast.Tuple) and any(isinstance(x, ast.Name) and x.id == held for x in n.ast.elts)]
+            restored = any(isinstance(x.ast, ast.Assign) and x is not onode and any(isinstance(t, ast.Name) and t.id == held for t in x.ast.targets) for x in cfg.reachable_from(onode))
+            if entered and not restored:
+                closes = closes + entered
         # "we opened it" flags: `flag = True` set on the branch that opened the file and never
         # reassigned afterwards; on paths from open() a test of that flag takes its true edge
         skip = set()
